@@ -10,8 +10,10 @@
 (* Every raster over VALS on an H x W grid and every list in LISTS is an initial state     *)
 (* (rasters without a kept cell are outside the property's domain and left out).           *)
 (*   MODE      "trim" (list = excluded values) | "crop" (list = requested zone ids)        *)
-(*   CODE_NANEQ  how the modelled scan compares NaN with NaN: FALSE = `e == val` as in     *)
-(*             /repo today, TRUE = the behaviour the property asks for                     *)
+(*   CODE_NANEQ  how the modelled _trim scan compares NaN with NaN: TRUE = the code         *)
+(*             (`e == val or (isnan(e) and isnan(val))`), which is what the property asks   *)
+(*             for; FALSE = the bare `e == val` of the code before fix 4e18dc9 - a negative  *)
+(*             twin: TLC must reject it when NaN is listed.  _crop always uses `==`.        *)
 (*   MUT       "none" or the name of a deliberately broken scan (negative twin)            *)
 EXTENDS TrimCropOps, TLC
 
@@ -22,7 +24,7 @@ vars == <<data, list, st>>
 
 \* the raster as the property sees it / as the modelled code sees it
 PE == [H |-> H, W |-> W, data |-> data, list |-> list, mode |-> MODE, naneq |-> TRUE]
-CE == [H |-> H, W |-> W, data |-> data, list |-> list, mode |-> MODE, naneq |-> CODE_NANEQ]
+CE == [H |-> H, W |-> W, data |-> data, list |-> list, mode |-> MODE, naneq |-> (MODE = "trim" /\ CODE_NANEQ)]
 
 Init == /\ data \in [1..H -> [1..W -> VALS]]
         /\ list \in LISTS
